@@ -210,6 +210,8 @@ class Interp:
         t = self.types.get(name, '').replace('const ', '').rstrip('& ')
         if t in ('ByteString', 'std::string') or (t.startswith('std::') and 'iterator' not in t):
             return False        # mutable containers keep their name (size(x) facts are keyed by it)
+        if rhs is not None and rhs.get('k') == 'Ctor' and rhs.get('type', '').replace('const ', '') not in ('OSAttribute',):
+            return False        # objects with identity (File f(...), MutexLocker l(...)) keep their name; OSAttribute is a value
         return True
 
     def on_call(self, e, st): pass
